@@ -1338,6 +1338,11 @@ def c14(res):
                     finals.append(fin)
         finally:
             drop_server(sb, srv)
+    # the client up to the hand-over to its worker (Client.tla): request construction and reaction
+    # to a scripted first reply (OACK subsets / other values, ACK, ERROR, DATA, garbage)
+    cev = IO.client_reaction_runs(rng, 40 if q else 600, os.path.join(C.WORK, "sbx", "client-react-%d" % os.getpid()))
+    shutil.rmtree(os.path.join(C.WORK, "sbx", "client-react-%d" % os.getpid()), ignore_errors=True)
+    judge_net_trace(res, cev, "client-reaction", module="Trace_Client", sample_kind="crun")
     judge_transfers(res, xfer_events, "interop-wire")
     judge_net_trace(res, finals, "interop-final", module="Trace_Interop", sample_kind="final")
     res.extra["runs"] = len(finals)
@@ -1399,6 +1404,37 @@ def setup():
 
 
 def replay_file(path):
+    """Re-runs what a replay file recorded: a worker script is executed again on the real Worker
+    and judged; other kinds print their recorded history and the command that reproduces them."""
     obj = json.load(open(path))
-    print(json.dumps(obj.get("description")))
+    rep = obj.get("replay", {})
+    print("property:", obj.get("property"), "| signature:", obj.get("signature"))
+    print("recorded:", obj.get("description"))
+    script = rep.get("script")
+    fam = str(rep.get("family", ""))
+    if rep.get("kind") == "wsim-script" and isinstance(script, dict) and "cfg" in script:
+        sp = os.path.join(C.WORK, "replay.script.ndjson")
+        with open(sp, "w") as f:
+            f.write(json.dumps(script) + "\n")
+        tp = W.replay(sp, "replay")
+        devs, n, _ = W.judge(tp)
+        for line in open(tp):
+            print("   ", line.rstrip()[:200])
+        os.remove(tp)
+        print("now:", devs if devs else "accepted by the trace specification (no deviation)")
+        return 1 if devs else 0
+    if isinstance(script, dict) and ("b" in script or "p" in script or "args" in script or "steps" in script):
+        layer = W.CODEC if ("b" in script or "p" in script) else (W.CLI if "args" in script else W.WINDOW)
+        sp = os.path.join(C.WORK, "replay.vector.ndjson")
+        with open(sp, "w") as f:
+            f.write(json.dumps(script) + "\n")
+        tp = W.replay(sp, "replay", layer)
+        devs, n, _ = W.judge(tp, module=layer["trace"], cfg=layer["trace"] + ".cfg")
+        print("   ", open(tp).read()[:600])
+        os.remove(tp)
+        print("now:", devs if devs else "accepted")
+        return 1 if devs else 0
+    for ev in (rep.get("history") or rep.get("trace") or [])[:60]:
+        print("   ", json.dumps(ev)[:200])
+    print("to reproduce: VERIF_SEED=%s ./check %s --tier quick   (real-process scenario: %s)" % (rep.get("seed", C.seed()), obj.get("property"), fam or rep.get("kind")))
     return 0
